@@ -245,6 +245,14 @@ func (x *Exec) callBuiltin(s *State, fr *Frame, b *ssa.Builtin, args []Value, c 
 	case "cap":
 		panic(x.subsetf("cap() is not modelled (slices carry no capacity)"))
 	case "append":
+		// Slices are modelled as immutable sequence values (no capacity, no shared backing array). That is faithful as
+		// long as an append never writes into the backing array of a slice that is still in use; appending to a
+		// re-sliced prefix s[lo:hi] of a slice can do exactly that (hi < cap), so it is outside the modelled subset.
+		if sl, ok := c.Args[0].(*ssa.Slice); ok && sl.High != nil && sl.Max == nil {
+			if _, isSlice := types.Unalias(sl.X.Type()).Underlying().(*types.Slice); isSlice {
+				panic(x.subsetf("append to a re-sliced prefix (x[:k]) may overwrite the elements of x that follow: slices are modelled as values"))
+			}
+		}
 		a, bb := args[0], args[1]
 		if isString(bb.T) {
 			panic(x.subsetf("append([]byte, string...)"))
@@ -299,6 +307,14 @@ func (x *Exec) callSpec(s *State, fr *Frame, spec *FuncSpec, key string, args []
 	ctx := &EvalCtx{x: x, st: s, old: pre, env: env, sf: sf, atCall: true}
 	site := x.siteOrdinal(fr.fn, in)
 	callee := shortFn(key)
+	// remember the mutexes this call locks: every return must leave them as it found them (a lock leaked on some
+	// path makes the next call block for ever -- the one termination hazard that is visible within a single call)
+	switch callee {
+	case "(*sync.RWMutex).Lock", "(*sync.RWMutex).RLock", "(*sync.Mutex).Lock":
+		if len(args) > 0 && (args[0].Loc != nil || args[0].Term != nil) {
+			s.locked = append(s.locked, x.ptrLoc(s, args[0]))
+		}
+	}
 	for ci, c := range spec.Requires {
 		g := x.evalBool(ctx, c.Expr)
 		label := c.Label
